@@ -263,10 +263,18 @@ func (sc *Scope) eval(e *SExpr) *sv {
 		case isSlice(b.T):
 			bk := b.backing()
 			ai := app(SIdx, "bvadd", b.sOff(), idx)
+			if sc.qdepth == 0 {
+				ai = ft.c.Define("si", ai)
+				ft.c.AddInst(ai)
+			}
 			nlv := bk.extend(Step{Idx: &ai}, sliceElem(b.T))
 			return &sv{v: ft.load(sc.mem, nlv)}
 		case isString(b.T):
-			return &sv{v: &Val{T: types.Typ[types.Uint8], L: []Term{mkSelect(b.strArr(), app(SIdx, "bvadd", b.strOff(), idx))}}}
+			bt := mkSelect(b.strArr(), app(SIdx, "bvadd", b.strOff(), idx))
+			if gInt && sc.qdepth == 0 {
+				bt = ft.rangedDef("sb", bt, func(x Term) Term { return inTypeRange(x, 8, false) })
+			}
+			return &sv{v: &Val{T: types.Typ[types.Uint8], L: []Term{bt}}}
 		}
 		if _, ok := b.T.Underlying().(*types.Array); ok {
 			return &sv{v: b.index(idx)}
@@ -303,26 +311,39 @@ func (sc *Scope) eval(e *SExpr) *sv {
 		}
 		return r
 	case "forall", "exists":
-		t := sc.typeByName(e.BT)
-		if t == nil {
-			return sc.fail("unknown binder type %s", e.BT)
-		}
-		ls := leavesOf(t)
-		if len(ls) != 1 {
-			return sc.fail("binder type %s not scalar", e.BT)
-		}
-		name := ft.c.BoundVar(e.Name)
+		names := strings.Split(e.Name, ",")
+		tnames := strings.Split(e.BT, ",")
 		n := sc.child()
 		n.qdepth = sc.qdepth + 1
-		n.vars[e.Name] = &sv{v: &Val{T: t, L: []Term{{ls[0].Sort, name}}}}
+		var bvs, sorts []string
+		for i, nm := range names {
+			t := sc.typeByName(tnames[i])
+			if t == nil {
+				return sc.fail("unknown binder type %s", tnames[i])
+			}
+			ls := leavesOf(t)
+			if len(ls) != 1 {
+				return sc.fail("binder type %s not scalar", tnames[i])
+			}
+			bv := ft.c.BoundVar(nm)
+			bvs = append(bvs, bv)
+			sorts = append(sorts, ls[0].Sort)
+			n.vars[nm] = &sv{v: &Val{T: t, L: []Term{{ls[0].Sort, bv}}}}
+		}
+		ft.inQuant++
 		body := n.evalBool(e.Args[0])
+		ft.inQuant--
 		if n.err != nil && sc.err == nil {
 			sc.err = n.err
 		}
 		if sc.qdepth > 0 {
-			return boolVal(Term{SBool, fmt.Sprintf("(%s ((%s %s)) %s)", e.Op, name, ls[0].Sort, body.T)})
+			var bs strings.Builder
+			for i := range bvs {
+				fmt.Fprintf(&bs, "(%s %s)", bvs[i], sorts[i])
+			}
+			return boolVal(Term{SBool, fmt.Sprintf("(%s (%s) %s)", e.Op, bs.String(), body.T)})
 		}
-		return boolVal(ft.c.Quant(e.Op == "exists", name, ls[0].Sort, body))
+		return boolVal(ft.c.QuantN(e.Op == "exists", bvs, sorts, body))
 	case "ite":
 		c := sc.evalBool(e.Args[0])
 		a, b := sc.unify(sc.eval(e.Args[1]), sc.eval(e.Args[2]))
@@ -636,6 +657,10 @@ func (sc *Scope) call(e *SExpr) *sv {
 			bk := sub.backing()
 			arrOf = func(i Term) Term {
 				ai := app(SIdx, "bvadd", b.sOff(), i)
+				if sc.qdepth == 0 {
+					ai = ft.c.Define("si", ai)
+					ft.c.AddInst(ai)
+				}
 				return ft.load(sc.mem, bk.extend(Step{Idx: &ai}, types.Typ[types.Uint8])).L[0]
 			}
 		}
@@ -655,12 +680,34 @@ func (sc *Scope) call(e *SExpr) *sv {
 		if nb == 1 {
 			return &sv{v: &Val{T: rt, L: []Term{parts[0]}}}
 		}
+		if gInt {
+			var terms []string
+			for j, p := range parts {
+				terms = append(terms, fmt.Sprintf("(* %s %s)", pow2(8*(nb-1-j)).String(), p.T))
+			}
+			return &sv{v: &Val{T: rt, L: []Term{{SInt, "(+ " + strings.Join(terms, " ") + ")"}}}}
+		}
 		return &sv{v: &Val{T: rt, L: []Term{app(SBV(8*nb), "concat", parts...)}}}
 	case "mulOverflows", "addOverflows":
 		a, b := sc.unify(sc.eval(e.Args[0]), sc.eval(e.Args[1]))
 		w, _, ok := isIntType(a.T)
 		if !ok {
 			return sc.fail("%s on non-integers", name)
+		}
+		if gInt {
+			if name == "addOverflows" {
+				return boolVal(Term{SBool, fmt.Sprintf("(>= (+ %s %s) %s)", a.L[0].T, b.L[0].T, pow2(w).String())})
+			}
+			fn := fmt.Sprintf("mulOverflowsI%d", w)
+			ft.c.addPre(fn, fmt.Sprintf("(declare-fun %s (Int Int) Bool)", fn))
+			apT := rawApp(SBool, fn, a.L[0], b.L[0])
+			if !sc.revealed("mulOverflows") {
+				return boolVal(apT)
+			}
+			ap := ft.c.Fresh("mulovf", SBool)
+			ft.c.Assume(ap, mkEq(ap, apT))
+			ft.c.Assume(ap, mkEq(ap, Term{SBool, fmt.Sprintf("(>= (* %s %s) %s)", a.L[0].T, b.L[0].T, pow2(w).String())}))
+			return boolVal(ap)
 		}
 		za := Term{SBV(2 * w), fmt.Sprintf("((_ zero_extend %d) %s)", w, a.L[0].T)}
 		zb := Term{SBV(2 * w), fmt.Sprintf("((_ zero_extend %d) %s)", w, b.L[0].T)}
@@ -686,6 +733,13 @@ func (sc *Scope) call(e *SExpr) *sv {
 			return boolVal(ap)
 		}
 
+	case "off0":
+		// off0(s): the slice view starts at index 0 of its backing array (true of every slice obtained from make/append)
+		x := sc.eval(e.Args[0]).v
+		if x == nil || !(isSlice(x.T) || isString(x.T)) {
+			return sc.fail("off0 expects a slice")
+		}
+		return boolVal(mkEq(x.L[1], idxInt(0)))
 	case "isNaN":
 		return boolVal(app(SBool, "fp.isNaN", sc.eval(e.Args[0]).v.L[0]))
 	case "isInf":
@@ -697,6 +751,26 @@ func (sc *Scope) call(e *SExpr) *sv {
 	case "sameFloat": // structural equality (distinguishes +0/-0, NaN == NaN)
 		a, b := sc.eval(e.Args[0]).v, sc.eval(e.Args[1]).v
 		return boolVal(mkEq(a.L[0], b.L[0]))
+	case "roundToAway":
+		x := sc.eval(e.Args[0]).v
+		eb, sb := sc.eval(e.Args[1]), sc.eval(e.Args[2])
+		if eb.c == nil || sb.c == nil {
+			return sc.fail("roundToAway expects constant format parameters")
+		}
+		return &sv{v: &Val{T: x.T, L: []Term{{x.L[0].S, fmt.Sprintf("((_ to_fp 8 24) RNE ((_ to_fp %d %d) RNA %s))", eb.c.Int64(), sb.c.Int64(), x.L[0].T)}}}}
+	case "roundTo":
+		// roundTo(f, eb, sb): f rounded (RNE, overflow to infinity) to the IEEE format with eb exponent and sb significand bits
+		x := sc.eval(e.Args[0]).v
+		eb, sb := sc.eval(e.Args[1]), sc.eval(e.Args[2])
+		if eb.c == nil || sb.c == nil {
+			return sc.fail("roundTo expects constant format parameters")
+		}
+		w, _ := isFloatType(x.T)
+		e0, s0 := 8, 24
+		if w == 64 {
+			e0, s0 = 11, 53
+		}
+		return &sv{v: &Val{T: x.T, L: []Term{{x.L[0].S, fmt.Sprintf("((_ to_fp %d %d) RNE ((_ to_fp %d %d) RNE %s))", e0, s0, eb.c.Int64(), sb.c.Int64(), x.L[0].T)}}}}
 	case "f32frombits":
 		x := sc.eval(e.Args[0])
 		v := sc.typed(x, types.Typ[types.Uint32])
@@ -818,9 +892,9 @@ func (sc *Scope) call(e *SExpr) *sv {
 
 func (sc *Scope) convertVal(v *Val, to types.Type) *Val {
 	fw, fsigned, fint := isIntType(v.T)
-	tw, _, tint := isIntType(to)
+	tw, tsigned, tint := isIntType(to)
 	if fint && tint {
-		return &Val{T: to, L: []Term{extendTo(v.L[0], fw, fsigned, tw)}}
+		return &Val{T: to, L: []Term{convInt(v.L[0], fw, fsigned, tw, tsigned)}}
 	}
 	ffw, ffl := isFloatType(v.T)
 	tfw, tfl := isFloatType(to)
@@ -842,6 +916,9 @@ func (sc *Scope) convertVal(v *Val, to types.Type) *Val {
 		eb, sb := 11, 53
 		if tfw == 32 {
 			eb, sb = 8, 24
+		}
+		if gInt {
+			return &Val{T: to, L: []Term{{fpSortOf(tfw), fmt.Sprintf("((_ to_fp %d %d) RNE (to_real %s))", eb, sb, v.L[0].T)}}}
 		}
 		return &Val{T: to, L: []Term{{fpSortOf(tfw), fmt.Sprintf("((_ %s %d %d) RNE %s)", op, eb, sb, v.L[0].T)}}}
 	}
@@ -868,6 +945,27 @@ func (fr *frame) resolver(li *loopInfo, over map[*ssa.Phi]*Val) func(string) *Va
 						}
 					}
 					return fr.vals[ph]
+				}
+			}
+		}
+		// `nexti`: in a range loop, the next index to be processed (rangeindex+1 at the loop head)
+		if li != nil && name == "nexti" {
+			for _, in := range li.head.Instrs {
+				ph, ok := in.(*ssa.Phi)
+				if !ok {
+					break
+				}
+				if ph.Comment == "rangeindex" {
+					var pv *Val
+					if over != nil {
+						pv = over[ph]
+					}
+					if pv == nil {
+						pv = fr.vals[ph]
+					}
+					if pv != nil {
+						return &Val{T: ph.Type(), L: []Term{app(SIdx, "bvadd", pv.L[0], idxInt(1))}}
+					}
 				}
 			}
 		}
